@@ -23,6 +23,11 @@ import (
 type Round struct {
 	Revert int
 	Fork   []*lib.BlockSpec
+	// Refused (round 6): a block offered to node A right after the reverts of the round that Store must
+	// refuse (it repeats a deployment / migration of the surviving chain, or touches a contract that is not
+	// there; repeat.go). If the tree under test stores it, it is reverted at once and A must equal B.
+	Refused     *lib.BlockSpec
+	RefusedKind string
 }
 
 type Scenario struct {
@@ -86,6 +91,8 @@ type Gen struct {
 	BiasSys bool
 	// ImplicitClasses: supply class definitions for deployed contracts' undeclared classes
 	ImplicitClasses bool
+	// Repeats: rounds carry a block that Store must refuse (repeat.go)
+	Repeats bool
 }
 
 func myCairo0(i uint64) *core.DeprecatedCairoClass {
@@ -247,6 +254,9 @@ func (g *Gen) GenFork(newState bool, p forkParams) *Scenario {
 		states = states[:len(states)-k]
 		vers = vers[:len(vers)-k]
 		rd := Round{Revert: k}
+		if g.Repeats && g.R.Chance(2, 3) {
+			rd.Refused, rd.RefusedKind = g.RefusedBlock(states[len(states)-1], chainSpecs, reverted[ri], uint64(len(states)-1), vers[len(vers)-1])
+		}
 		// transactions of the reverted blocks: a real reorg re-includes some of them in the new fork
 		// (same hash, same L1 message) at another index or height
 		var pool []int
